@@ -83,15 +83,7 @@ Proof.
   rewrite skipn_app_exact, firstn_app_exact. reflexivity.
 Qed.
 
-Definition pa_post (s : bytes) (rc : nat) : Prop :=
-  match rc with
-  | 0 => True
-  | 1 => fqdn_strict s /\ ~ In cAT s
-  | 2 => exists d, s = cAT :: d /\ fqdn_strict d
-  | 3 => mailbox pton4 pton6 lweak 3 s
-  | 4 => mailbox pton4 pton6 lweak 4 s
-  | _ => False
-  end.
+Definition pa_post (s : bytes) (rc : nat) : Prop := parseaddr_post pton4 pton6 s rc.
 
 Theorem parseaddr_spec s rest : ~ In NUL s ->
   exists rc, parseaddr pton4 pton6 (s ++ NUL :: rest) = Ok rc /\ pa_post s rc.
